@@ -114,14 +114,18 @@ def genGRL (m : Model) (π : DepOrder) (removeUnused : Bool) (delta : Expr) : Op
   pure (unpackStates L (fun _ => true) ++ unpackParams L keep ++ unpackMissing L ++
     bodySlots m L (rlStore (fun _ => true) delta) order)
 
-/-- `sympytools.rhs_matrix`: substitute intermediates simultaneously until none is left,
-at most `maxTries` times; `none` = "Maximum number of tries used" (the loop
-leaves with `num_tries == max_tries`; the first argument counts the tries that remain). -/
+/-- `sympytools.rhs_matrix`: substitute intermediates simultaneously until none is left, at most
+`maxTries` times; `none` = "Maximum number of tries used" (intermediates still present after the
+loop).  The first argument counts the tries that remain. -/
+def hasInter (isInter : Name → Bool) (rhs : List Expr) : Bool := rhs.any fun e => (fv e).any isInter
+
 def rhsMatrixLoop (σ : Name → Option Expr) (isInter : Name → Bool) : Nat → List Expr → Option (List Expr)
-  | 0, _ => none
+  | 0, rhs => if hasInter isInter rhs then none else some rhs
   | remaining + 1, rhs =>
-    if rhs.any (fun e => (fv e).any isInter) then rhsMatrixLoop σ isInter remaining (rhs.map (subst σ))
-    else some rhs
+    if hasInter isInter rhs then rhsMatrixLoop σ isInter remaining (rhs.map (subst σ)) else some rhs
+
+/-- default bound: one more than the number of intermediates -/
+def defaultMaxTries (m : Model) : Nat := m.inters.length + 1
 
 def rhsMatrix (m : Model) (π : DepOrder) (maxTries : Nat) : Option (List Expr) := do
   let order ← sortedAssignments m π false
